@@ -92,6 +92,11 @@ impl Pad for Box<u8> {
         Box::new(role as u8)
     }
 }
+impl Pad for u64 {
+    fn mk(role: u64) -> Self {
+        role.wrapping_mul(0x9e37_79b9_7f4a_7c15) | 1
+    }
+}
 impl Pad for u128 {
     fn mk(role: u64) -> Self {
         ((role as u128) << 100) | 0x1234_5678_9abc_def0_1122_3344
@@ -113,19 +118,24 @@ impl Pad for (u8, u16) {
 }
 
 macro_rules! shape {
+    // same payload in all four types
     ($m:ident, $label:expr, $P:ty) => {
+        shape!($m, $label, $P, $P, $P);
+    };
+    // payload of T and E, of U (the type map / and_then convert to) and of E2 (the type err_into /
+    // map_err convert to): conversions that widen, narrow or keep the size
+    ($m:ident, $label:expr, $P:ty, $PU:ty, $PE2:ty) => {
         mod $m {
             use super::*;
-            type P = $P;
             const LABEL: &str = $label;
 
             macro_rules! tagged {
-                ($name:ident, $role:expr) => {
+                ($name:ident, $role:expr, $pad:ty) => {
                     #[derive(Clone, PartialEq)]
-                    pub(super) struct $name(pub u32, pub P);
+                    pub(super) struct $name(pub u32, pub $pad);
                     impl $name {
                         pub(super) fn mk(tag: u32) -> $name {
-                            $name(tag, <P as Pad>::mk($role))
+                            $name(tag, <$pad as Pad>::mk($role))
                         }
                     }
                     impl std::fmt::Debug for $name {
@@ -139,10 +149,10 @@ macro_rules! shape {
                     }
                 };
             }
-            tagged!(T, 1);
-            tagged!(U, 2);
-            tagged!(E, 3);
-            tagged!(E2, 4);
+            tagged!(T, 1, $P);
+            tagged!(U, 2, $PU);
+            tagged!(E, 3, $P);
+            tagged!(E2, 4, $PE2);
 
             impl From<E> for E2 {
                 fn from(e: E) -> E2 {
@@ -161,6 +171,14 @@ macro_rules! shape {
 
             pub(super) fn sizes() -> (usize, usize) {
                 (std::mem::size_of::<Parsed<T, E>>(), std::mem::align_of::<Parsed<T, E>>())
+            }
+            pub(super) fn conv_sizes() -> [usize; 4] {
+                [
+                    std::mem::size_of::<T>(),
+                    std::mem::size_of::<U>(),
+                    std::mem::size_of::<E>(),
+                    std::mem::size_of::<E2>(),
+                ]
             }
 
             pub(super) fn cells() -> Vec<Cell15> {
@@ -641,6 +659,13 @@ shape!(heap, "shape=String:", String);
 shape!(boxed, "shape=Box:", Box<u8>);
 shape!(wide, "shape=u128:", u128);
 shape!(aligned, "shape=align64:", Align64);
+// conversions between types of different size: E -> E2 and T -> U widening within a few words,
+// widening beyond, and narrowing
+shape!(widen_small, "shape=widen(4->16):", (), u64, u64);
+shape!(widen_mid, "shape=widen(12->32):", u64, [u64; 3], [u64; 3]);
+shape!(widen_large, "shape=widen(16->136):", u64, [u64; 16], [u64; 16]);
+shape!(narrow, "shape=narrow(136->4):", [u64; 16], (), ());
+shape!(to_heap, "shape=widen(&str-like->String):", u64, String, String);
 
 fn cells() -> Vec<Cell15> {
     let mut v = plain::cells();
@@ -651,19 +676,29 @@ fn cells() -> Vec<Cell15> {
     v.extend(boxed::cells());
     v.extend(wide::cells());
     v.extend(aligned::cells());
+    v.extend(widen_small::cells());
+    v.extend(widen_mid::cells());
+    v.extend(widen_large::cells());
+    v.extend(narrow::cells());
+    v.extend(to_heap::cells());
     v
 }
 
-fn shape_sizes() -> Vec<(&'static str, usize, usize)> {
+fn shape_sizes() -> Vec<(&'static str, usize, usize, [usize; 4])> {
     vec![
-        ("unit", plain::sizes().0, plain::sizes().1),
-        ("u8+u16", odd::sizes().0, odd::sizes().1),
-        ("[u64;16]", big136::sizes().0, big136::sizes().1),
-        ("[u64;40]", big328::sizes().0, big328::sizes().1),
-        ("String", heap::sizes().0, heap::sizes().1),
-        ("Box", boxed::sizes().0, boxed::sizes().1),
-        ("u128", wide::sizes().0, wide::sizes().1),
-        ("align64", aligned::sizes().0, aligned::sizes().1),
+        ("unit", plain::sizes().0, plain::sizes().1, plain::conv_sizes()),
+        ("u8+u16", odd::sizes().0, odd::sizes().1, odd::conv_sizes()),
+        ("[u64;16]", big136::sizes().0, big136::sizes().1, big136::conv_sizes()),
+        ("[u64;40]", big328::sizes().0, big328::sizes().1, big328::conv_sizes()),
+        ("String", heap::sizes().0, heap::sizes().1, heap::conv_sizes()),
+        ("Box", boxed::sizes().0, boxed::sizes().1, boxed::conv_sizes()),
+        ("u128", wide::sizes().0, wide::sizes().1, wide::conv_sizes()),
+        ("align64", aligned::sizes().0, aligned::sizes().1, aligned::conv_sizes()),
+        ("widen(4->16)", widen_small::sizes().0, widen_small::sizes().1, widen_small::conv_sizes()),
+        ("widen(12->32)", widen_mid::sizes().0, widen_mid::sizes().1, widen_mid::conv_sizes()),
+        ("widen(16->136)", widen_large::sizes().0, widen_large::sizes().1, widen_large::conv_sizes()),
+        ("narrow(136->4)", narrow::sizes().0, narrow::sizes().1, narrow::conv_sizes()),
+        ("widen(->String)", to_heap::sizes().0, to_heap::sizes().1, to_heap::conv_sizes()),
     ]
 }
 
@@ -772,12 +807,13 @@ impl Monitor for C15 {
         // case 0: the complete cell table; case k>0: all token strings of length k-1 over {a,b,c,d,e,z}
         if idx == 0 {
             let cs = crate::work::sut(cells);
-            for (name, parsed, parsed_unit_value) in shape_sizes() {
+            for (name, size, align, conv) in shape_sizes() {
                 rep.extra.insert(
                     format!("shape:{}", name),
                     J::obj()
-                        .set("size_of_Parsed<T,E>", J::u(parsed))
-                        .set("align_of_Parsed<T,E>", J::u(parsed_unit_value)),
+                        .set("size_of_Parsed<T,E>", J::u(size))
+                        .set("align_of_Parsed<T,E>", J::u(align))
+                        .set("size_of_T_U_E_E2", J::A(conv.iter().map(|&x| J::u(x)).collect())),
                 );
                 rep.inc("shapes");
             }
